@@ -47,7 +47,7 @@ PLAN = {
     # runs per batch; R2 keys per hash seed; R3 replays; determinism seeds; soft wall cap (s)
     # K5: repetitions per op; K6: (read faults per table, interrupts per table)
     "quick": {"runs": {"K0": 80, "K1": 200, "K2": 100, "K3": 100, "K4": 120}, "k5_reps": 3, "k6": (2, 4), "k7": 16,
-              "r2": 48, "r2_single": 3, "r3": 12, "det": 12, "cap": 420},
+              "r2": 48, "r2_single": 3, "r3": 12, "det": 20, "cap": 420},
     "thorough": {"runs": {"K0": 3000, "K1": 9000, "K2": 5000, "K3": 5000, "K4": 6000}, "k5_reps": 40, "k6": (5, 60), "k7": 600,
                  "r2": 600, "r2_single": 24, "r3": 200, "det": 64, "cap": 3300},
 }
@@ -816,6 +816,13 @@ def cmd_replay(path):
             job = {"mode": "replay", "steps": doc["steps"], "judge": False, "want_events": True}
             ps = [fresh.launch({"mode": "replay", "jobs": [job]}, hs, VERIF, cwd) for hs, cwd in envs]
             logs = [project(fresh.collect(p)["out"][0].get("events") or []) for p in ps]
+            # ... and twice in a row over ONE home / cache / temp directory (restart: only what is on disk survives)
+            import tempfile
+            home = tempfile.mkdtemp(prefix="home-restart-", dir=pristine_scratch.dir)
+            job2 = dict(job, keep_home=True)
+            for _ in range(2):
+                logs.append(project(fresh.collect(fresh.launch({"mode": "replay", "jobs": [job2]}, 0, VERIF, "/", "C", home=home))
+                                    ["out"][0].get("events") or []))
             bad = False
             for lg in logs[1:]:
                 idx = next((n for n, (x, y) in enumerate(zip(logs[0], lg)) if x != y), None)
